@@ -27,6 +27,8 @@ R3 (K4+K2) breezy/bzr/branch.py: _write_last_revision_info is called only from B
    ancestry of the new one"; Branch.get_append_revisions_only reads the option from the branch's full configuration stack.
 R4 (K1) Branch.generate_revision_history raises DivergedBranches before set_last_revision_info when last_rev is given and
    is not an ancestor of the new tip.
+R8 (K7) every InterBranch implementation in branch.py and git/branch.py substitutes the full aspect set only under
+   `overwrite is True`, and no push/pull entry point lets a divergence check hang on the bare truth value of overwrite.
 Does not decide: that revno equals the length of the left-hand history for all DAGs (graph arithmetic).
 """
 ASSUMPTIONS = ["graph.heads() returns the heads of the given revisions (vcsgraph)"]
@@ -156,6 +158,30 @@ def run(ctx):
     bound_local = [i for i in calling(gq, attr="_basic_push", recv="self") if i in gq.reach(calling(gq, attr="get_master_branch"))]
     ok_, w_ = gq.always_before(mq, bound_local) if bound_local else (False, None)
     ctx.check("R7-bound-push-master-first", whereq, ok_, "pushing into a bound branch moves the master first: if the master refuses (DivergedBranches) the bound branch's tip is untouched", message="the bound branch's own tip is pushed before its master: when the master rejects the revision as diverged the push fails but the bound tip has already moved", witness=gq.show_path(w_) if w_ else None)
+    # ---- R8: every InterBranch implementation reads the overwrite aspects the same way -----------------------------------
+    # `overwrite` arrives as True, a false value, or a collection of aspects (the commands pass lists: ["tags"] for
+    # --overwrite-tags).  (a) The full aspect set is substituted only under the identity test `overwrite is True`;
+    # (b) no divergence decision in a push/pull entry point hangs on the bare truth value of `overwrite`.
+    GB = "breezy/git/branch.py"
+    n_norm = 0
+    for rel_ in (BR, GB):
+        for q_, f_ in repo.module(rel_).functions().items():
+            if "overwrite" not in [a.arg for a in f_.args.args + f_.args.kwonlyargs]:
+                continue
+            for n in walk_own(f_):
+                if isinstance(n, ast.Assign) and norm(n.targets[0]) == "overwrite":
+                    full = [x for x in ast.walk(n.value) if isinstance(x, (ast.Set, ast.List, ast.Tuple)) and any(isinstance(e, ast.Constant) and e.value == "history" for e in x.elts)]
+                    if not full:
+                        continue
+                    n_norm += 1
+                    conds = [i_ for i_ in walk_own(f_) if isinstance(i_, ast.If) and any(x is n for s_ in i_.body for x in ast.walk(s_))]
+                    ok_c = bool(conds) and norm(conds[-1].test) in ("overwrite is True", "overwrite == True") and not isinstance(n.value, ast.IfExp)
+                    ctx.check("R8-overwrite-aspects-uniform", f"{rel_}:{q_}", ok_c, f"{q_}: the full aspect set is substituted only under `overwrite is True`", construct=f"L{n.lineno}:{norm(n)[:60]} under {[norm(c_.test)[:40] for c_ in conds][-1:]}", message=f"{q_} turns `overwrite` into the full aspect set under {[norm(c_.test)[:50] for c_ in conds][-1:] or 'no test'} instead of `overwrite is True`: a collection that names other aspects only (['tags'], what --overwrite-tags passes) is expanded to include 'history' and the divergence check is skipped — the target's own revisions are dropped silently")
+            if q_.split(".")[-1] in ("push", "pull", "_basic_push", "_pull", "lossy_push"):
+                for n in ast.walk(f_):
+                    if isinstance(n, ast.BoolOp) and isinstance(n.op, ast.And) and any(isinstance(v, ast.UnaryOp) and isinstance(v.op, ast.Not) and norm(v.operand) == "overwrite" for v in n.values) and any(isinstance(c, ast.Call) and "diverg" in norm(c.func).lower() for v in n.values for c in ast.walk(v)):
+                        ctx.check("R8-overwrite-aspects-uniform", f"{rel_}:{q_}", False, "the divergence check depends on the 'history' aspect", construct=f"L{n.lineno}:{norm(n)[:70]}", message=f"{q_} skips its divergence check whenever `overwrite` is merely true-ish (`{norm(n)[:60]}`): --overwrite-tags (overwrite=['tags']) replaces diverged history on the target without any error")
+    ctx.require(n_norm >= 4, f"only {n_norm} overwrite normalisations found in {BR} / {GB} (hand-confirmed: >= 6)")
     # R5 siblings: other Branch implementations overriding set_last_revision_info (information)
     sibs = []
     for rel in ("breezy/git/branch.py", "breezy/bzr/remote.py", "breezy/bzr/fullhistory.py", "breezy/git/remote.py"):
@@ -167,6 +193,8 @@ def run(ctx):
 
 
 MUTANTS = [
+    Mutant("git pull expands any non-set overwrite to the full aspect set", "breezy/git/branch.py", "        if local:\n            raise errors.LocalRequiresBoundBranch()\n        if overwrite is True:\n            overwrite = {\"history\", \"tags\"}\n        elif not overwrite:\n            overwrite = set()\n", "        if local:\n            raise errors.LocalRequiresBoundBranch()\n        if not isinstance(overwrite, (set, frozenset)):\n            overwrite = {\"history\", \"tags\"} if overwrite else set()\n", expect="R8-overwrite-aspects-uniform"),
+    Mutant("remote git push decides divergence on the truth value of overwrite", "breezy/git/branch.py", "            if \"history\" not in overwrite and remote_divergence(", "            if not overwrite and remote_divergence(", expect="R8-overwrite-aspects-uniform"),
     Mutant("push hands the whole aspect set to _update_revisions", BR, "            self._update_revisions(\n                stop_revision, overwrite=(\"history\" in overwrite), graph=graph\n            )\n        if self.source._push_should_merge_tags():", "            self._update_revisions(stop_revision, overwrite=overwrite, graph=graph)\n        if self.source._push_should_merge_tags():", expect="R6-overwrite-history-only"),
     Mutant("classification skipped by a shortcut", BR, "            if not overwrite:\n                if graph is None:\n                    graph = self.target.repository.get_graph()\n                if self.target._check_if_descendant_or_diverged(", "            if not overwrite and stop_revno is None:\n                if graph is None:\n                    graph = self.target.repository.get_graph()\n                if self.target._check_if_descendant_or_diverged(", expect="R1-classified-before-tip-move"),
     Mutant("arguments swapped", BR, "                if self.target._check_if_descendant_or_diverged(\n                    stop_revision, last_rev, graph, self.source\n                ):", "                if self.target._check_if_descendant_or_diverged(\n                    last_rev, stop_revision, graph, self.source\n                ):", expect="R1-classifies-right-pair"),
